@@ -186,6 +186,9 @@ func runOne(l *Loaded, hs HarnessSpec, seed int) *HarnessResult {
 	if v, ok := hs.Params["$maxsteps"]; ok {
 		cfg.MaxSteps = v
 	}
+	if v, ok := hs.Params["$dedup"]; ok {
+		cfg.Dedup = v != 0
+	}
 	if v, ok := hs.Params["$maporders"]; ok {
 		cfg.MapOrders = v != 0
 	}
@@ -310,8 +313,8 @@ func printSummary(r *HarnessResult) {
 	} else if len(r.Inconclusive) > 0 {
 		status = "INCONCLUSIVE"
 	}
-	fmt.Printf("%-40s %-12s paths=%d oblig=%d/%d covers=%d queries=%d (sat %d unsat %d) solver=%.1fs wall=%.1fs threads=%d\n",
-		r.Harness, status, r.Paths, r.Discharged, r.Obligations, len(r.Covers), r.Queries, r.Sat, r.Unsat, r.SolverTime, r.Wall, r.MaxThreads)
+	fmt.Printf("%-40s %-12s paths=%d pruned=%d oblig=%d/%d covers=%d queries=%d (sat %d unsat %d) solver=%.1fs wall=%.1fs threads=%d\n",
+		r.Harness, status, r.Paths, r.Pruned, r.Discharged, r.Obligations, len(r.Covers), r.Queries, r.Sat, r.Unsat, r.SolverTime, r.Wall, r.MaxThreads)
 	for _, v := range r.Violations {
 		fmt.Printf("    %s: %s @ %s tags=%v\n      model=%v\n", v.Kind, v.Label, v.Pos, v.Tags, compactModel(v.Model))
 		for _, n := range v.Notes {
